@@ -7210,6 +7210,8 @@ func (p *Parser) parseRename() *ast.RenameQuery {
 		p.nextToken()
 		rename.RenameDatabase = true
 	} else {
+		p.errors = append(p.errors, fmt.Errorf("expected TABLE, DICTIONARY or DATABASE after RENAME, got %s at line %d, column %d",
+			p.current.Token, p.current.Pos.Line, p.current.Pos.Column))
 		return nil
 	}
 
@@ -7304,6 +7306,8 @@ func (p *Parser) parseExchange() *ast.ExchangeQuery {
 	} else if p.currentIs(token.IDENT) && strings.ToUpper(p.current.Value) == "DICTIONARIES" {
 		p.nextToken()
 	} else {
+		p.errors = append(p.errors, fmt.Errorf("expected TABLES or DICTIONARIES after EXCHANGE, got %s at line %d, column %d",
+			p.current.Token, p.current.Pos.Line, p.current.Pos.Column))
 		return nil
 	}
 
